@@ -91,7 +91,7 @@ MANIFEST = dict(
          'values (str, tuples, frozen objects) are atoms of the heap model.',
 )
 
-IMPORTS = ['Coq.Lists.List', 'Coq.Bool.Bool', 'Coq.ZArith.ZArith', 'Coq.Strings.String', 'SV.SM.Store', 'SV.SM.StoreCert',
+IMPORTS = ['Coq.Lists.List', 'Coq.Bool.Bool', 'Coq.ZArith.ZArith', 'Coq.Strings.String', 'SV.SM.Store', 'SV.SM.StoreCert', 'SV.SM.StorePickleShort',
            'SV.SM.StoreCopy', 'SV.SM.StoreCopySrc', 'SV.SM.StoreCopyExport', 'SV.SM.StoreCopyFlow', 'SV.SM.StoreCopyWholeProofs', 'SV.SM.StoreRowCert', 'SV.SM.StoreExportCert', 'SV.SM.StoreTypedLabels', 'SV.SM.StoreCondRow', 'SV.SM.StorePickleState', 'SV.SM.KvAdd', 'SV.SM.KvAddFresh',
            'SV.SM.OpPurity', 'SV.SM.CollapseCensus', 'SV.Gen.CopyCensus_gen', 'SV.Gen.CopyExportReads_gen',
            'SV.Gen.C09OpCensus_gen', 'SV.Gen.C09Collapse_gen', 'SV.Props.C09']
@@ -1706,6 +1706,10 @@ def run(ck: Ck) -> None:
         obs['pickle_state_positions_match:Output'] = 'state_ok (names census_Output) output_state_put output_state_get'
         obs['pickle_state_short_form_matches:Output'] = ('state_short_ok output_state_put_short output_state_get_short '
                                                          'output_state_put output_state_get')
+        # premise of c09_pickle_short_form_export_equal: every original that takes the short state gets export-equal constants back
+        obs['pickle_short_form_restores_export_equal:Output'] = ('short_ok output_short_rows && short_rows_cover output_state_tail '
+                                                                 'output_short_rows && Nat.eqb (List.length output_short_rows) %d'
+                                                                 % len(side.get('pickle_state', {}).get('Output', {}).get('short_rows', [])))
         # premise of c09_cond_rows_checked: every conditional row is the join (weaker) of its two branch rows
         obs['conditional_rows_are_joins'] = 'cond_rows_ok all_census cond_rows && Nat.eqb (List.length cond_rows) %d' % len(side.get('cond_rows', []))
         # premise of c09_labels_of_a_class_same_mask: the census label of an exported node may be derived from its type name
